@@ -175,6 +175,32 @@ def iso {α β : Type} (f : α → β) (g : β → α) (c : Codec α) : Codec β
     | some (a, r) => some (f a, r)
   dom b := c.dom (g b)
 
+/-! ### `sort_unstable(); dedup()` with a derived `Ord` (canonical sets inside records) -/
+
+/-- insertion into an ascending list -/
+def insertBy {α : Type} (cmp : α → α → Ordering) (x : α) : List α → List α
+  | [] => [x]
+  | y :: ys => if cmp x y == .gt then y :: insertBy cmp x ys else x :: y :: ys
+
+/-- `sort_unstable()`: when the order is total and `Equal` only on identical values (OrdLaws in
+    Lemmas/Codec/SortDedup.lean) every sort returns this list -/
+def sortBy {α : Type} (cmp : α → α → Ordering) : List α → List α
+  | [] => []
+  | x :: xs => insertBy cmp x (sortBy cmp xs)
+
+/-- `Vec::dedup`: consecutive equal elements collapse to one -/
+def dedupAdj {α : Type} [DecidableEq α] : List α → List α
+  | a :: b :: rest => if a = b then dedupAdj (b :: rest) else a :: dedupAdj (b :: rest)
+  | l => l
+
+def canonBy {α : Type} [DecidableEq α] (cmp : α → α → Ordering) (l : List α) : List α :=
+  dedupAdj (sortBy cmp l)
+
+/-- `windows(2).all(|w| w[0] < w[1])` -/
+def strictlyAsc {α : Type} (cmp : α → α → Ordering) : List α → Bool
+  | a :: b :: rest => cmp a b == .lt && strictlyAsc cmp (b :: rest)
+  | _ => true
+
 /-- whole-buffer decode: trailing bytes are refused -/
 def decodeAll {α : Type} (c : Codec α) (bs : Bytes) : Option α :=
   match c.dec bs with
